@@ -1023,6 +1023,10 @@ class Executor:
             return [(s, BuiltinV("method." + attr, bound=base))]
         if isinstance(base, tuple) and base and base[0] == "kwargs":
             return [(s, BuiltinV("method." + attr, bound=base))]
+        if isinstance(base, BuiltinV) and not base.name.startswith("method.") and getattr(base, "bound", None) is None \
+                and any(k_ == "ext:%s.%s" % (base.name, attr) or k_.startswith("ext:%s.%s." % (base.name, attr)) for k_ in self.registry):
+            # a member of a library object that has an assumed external contract (sys.stdin.isatty)
+            return [(s, BuiltinV("%s.%s" % (base.name, attr)))]
         raise Unsupported("attribute %s of %s" % (attr, type(base).__name__), node)
 
     # -- annotations -> values / constraints ------------------------------------
@@ -1585,6 +1589,14 @@ class Executor:
             if init is None:
                 return [(s, obj)]
             cs = self.registry.get(init.qualname)
+            if cs and cs[0].assumed and init.qualname not in self.contract.inline:
+                # a constructor with an ASSUMED contract: the body is not run; the new object's fields are arbitrary
+                # values of their assumed types (created lazily), the contract's exceptions / events apply
+                s.store[obj.ref].symbolic = True
+                out = []
+                for (s2, r) in self.apply_contract(cs[0], init, [obj] + list(args), kwargs, s, node):
+                    out.append((s2, r if is_exc(r) else obj))
+                return out
             if cs:
                 self.check_call_pre(cs[0], init, [obj] + list(args), kwargs, s, node)
             out = []
